@@ -28,6 +28,10 @@ pub struct Plan {
     /// witness bits that must have been observed somewhere in the run (vacuity guard)
     pub required_witnesses: u64,
     pub witness_names: &'static [(&'static str, u64)],
+    /// skip a level when its predicted cost exceeds the wall budget (thorough tier). The quick tier runs
+    /// exactly the listed levels so that the work it reports does not depend on machine load; its wall
+    /// cap is only an emergency brake.
+    pub adaptive: bool,
 }
 
 fn set_hash(s: &std::collections::HashSet<u64>) -> String {
@@ -127,7 +131,7 @@ pub fn run_cases(args: &Args, rep: &mut Report, cases: Vec<Case>, plan: &Plan) {
             })
             .sum();
         let left = deadline.saturating_duration_since(Instant::now()).as_secs_f64();
-        if li > 0 && predicted / (threads as f64) > left * 1.2 {
+        if plan.adaptive && li > 0 && predicted / (threads as f64) > left * 1.2 {
             for i in &pending {
                 let mut st = states[*i].lock().unwrap();
                 if st.note.is_none() {
